@@ -397,6 +397,34 @@ func (ret *J2TStateMachine) GrowReqCache(n int) {
 	ret.ReqsCache = tmp
 }
 
+// ReclaimReqs takes back a requires-bitmap (n bytes at bm) which native has released although its struct
+// level is still open: that happens when native runs out of output buffer while writing the STOP byte of a
+// struct, since it releases the bitmap before that write and once more after re-entry.
+//
+//go:nocheckptr
+func (ret *J2TStateMachine) ReclaimReqs(bm unsafe.Pointer, n int) {
+	l := len(ret.ReqsCache)
+	if n <= 0 || l+n > cap(ret.ReqsCache) {
+		return
+	}
+	// the bitmaps are stacked: a released one starts exactly where the used part of its arena ends
+	released := arenaOffset(ret.ReqsCache, bm) == l
+	for i := 0; !released && i < len(ret.retiredReqsCaches); i++ {
+		released = arenaOffset(ret.retiredReqsCaches[i], bm) == l
+	}
+	if released {
+		ret.ReqsCache = ret.ReqsCache[:l+n]
+	}
+}
+
+func arenaOffset(arena []byte, p unsafe.Pointer) int {
+	base := *(*uintptr)(unsafe.Pointer(&arena))
+	if cap(arena) == 0 || uintptr(p) < base || uintptr(p)-base >= uintptr(cap(arena)) {
+		return -1
+	}
+	return int(uintptr(p) - base)
+}
+
 func (ret *J2TStateMachine) GrowKeyCache(n int) {
 	c := cap(ret.KeyCache) + n*resizeFactor
 	tmp := make([]byte, len(ret.KeyCache), c)
